@@ -1,0 +1,43 @@
+//go:build verif
+
+package id62
+
+// Contracts for contract-based verification (/verif, property C20). Comment-only apart from the
+// lemma functions at the end, which are real code composed only of calls to the functions above
+// and exist so that the round-trip and pattern lemmas are checked against the callee contracts.
+
+//@ func base62String
+//@   requires len(id) == 16
+//@   ensures shape: len(result) == 22 && isB62(result)
+//@   ensures value: val62(result) == val256(id)
+
+//@ func parseBase62
+//@   requires len(into) == 16
+//@   requires forall i int :: 0 <= i && i < 16 ==> into[i] == 0
+//@   ensures accept: isB62(s) && val62(s) < 340282366920938463463374607431768211456 ==> result == nil
+//@   ensures reject: (!parses62(s) || absint(sval62(s)) >= 340282366920938463463374607431768211456) ==> result != nil
+//@   ensures value: result == nil ==> val256(into) == absint(sval62(s))
+
+//@ func (UUID).String
+//@   ensures shape: len(result) == 22 && isB62(result)
+//@   ensures value: val62(result) == val256(id[:])
+
+//@ func Parse
+//@   ensures accept: isB62(s) && val62(s) < 340282366920938463463374607431768211456 ==> result1 == nil
+//@   ensures reject: (!parses62(s) || absint(sval62(s)) >= 340282366920938463463374607431768211456) ==> result1 != nil
+//@   ensures value: result1 == nil ==> val256(result0[:]) == absint(sval62(s))
+
+//@ func verifLemmaRoundTrip
+//@   ensures roundtrip: result1 == nil && (forall i int :: 0 <= i && i < 16 ==> result0[i] == u[i])
+
+//@ func verifLemmaPattern
+//@   ensures pattern: matches(initconst(PatternString), result)
+
+//@ func verifLemmaInjective
+//@   ensures injective: result ==> (forall i int :: 0 <= i && i < 16 ==> a[i] == b[i])
+
+func verifLemmaRoundTrip(u UUID) (UUID, error) { return Parse(u.String()) }
+
+func verifLemmaPattern(u UUID) string { return u.String() }
+
+func verifLemmaInjective(a, b UUID) bool { return a.String() == b.String() }
